@@ -73,14 +73,15 @@ def aggregate_check(extras, cells, tier):
 
 
 def cases(rng, budget, widx, nworkers, tier):
+    sm = lambda: tier == "quick" or rng.random() < 0.5      # thorough: half of the bodies from the full families (prisms, bipyramids, general hulls)
     i = widx
     while True:
         ka, kb = PAIRS[i % len(PAIRS)]
         i += 1
         if i % 25 == 0:
-            yield {"none": True, "a": gen.rand_obj(rng, ka, small=True), "label": "none-operand", "ls": rng.getrandbits(30)}
+            yield {"none": True, "a": gen.rand_obj(rng, ka, small=sm()), "label": "none-operand", "ls": rng.getrandbits(30)}
             continue
-        (a, b), label = gen.gen_pair(rng, ka, kb, small=True)
+        (a, b), label = gen.gen_pair(rng, ka, kb, small=sm())
         yield {"a": a, "b": b, "label": label, "ls": rng.getrandbits(30)}
 
 
